@@ -409,6 +409,7 @@ func connection(s *engine.Script, o *engine.Outcome, frames []*frame, opt *obs.O
 			case within < ext:
 				cls := fieldClassAt(frames[expect].f, within)
 				o.Fault("cut-inside:" + cls)
+				o.Tag("(entry point, field a cut fell into)", frames[expect].ad.Name+"/"+fieldNameAt(frames[expect].f, within))
 				if within == ext-1 {
 					o.Fault("cut-at-extent-1")
 				}
